@@ -397,6 +397,7 @@ theorem inv_release {s : State} (h : Inv s) (x : Nat) : Inv (release s x).1 := b
     · exact h
     · exact h
     · exact h
+    · exact h
     · rename_i sid hk
       split
       · rename_i os hos
@@ -420,6 +421,174 @@ theorem freeOk_alive {s : State} {free : Option Nat} (hf : freeOk s free = true)
   cases hl : s.live dd with
   | none => simp [hl] at hf
   | some o => exact alive_of_live hl
+
+/-! ### destructor activations -/
+
+theorem inv_frames {s : State} (h : Inv s) (fs : List Nat) : Inv { s with frames := fs } :=
+  ⟨h.wf, h.nd, h.ghost, h.hd, h.sk, h.fb⟩
+
+theorem fresh_frame {s : State} (pins : List Nat) (e : Nat) (hp : ∀ p ∈ pins, Alive s p) :
+    Fresh s (mkObj (.frame pins) e) := by
+  refine ⟨?_, ?_, ?_, ?_, ?_⟩
+  · intro x hx; simp [edges, mkObj] at hx; exact hp x hx
+  · simp [GcpInv, mkObj]
+  · intro x a h; simp [mkObj] at h
+  · intro sid h; simp [mkObj] at h
+  · intro b r h; simp [mkObj] at h
+
+theorem inv_pushFrame {s : State} (h : Inv s) (pins : List Nat) (hp : ∀ p ∈ pins, Alive s p) :
+    Inv (s.pushFrame pins) :=
+  inv_frames (inv_push h (fresh_frame pins 1 hp)) _
+
+theorem alive_pushFrame {s : State} (h : Inv s) (pins : List Nat) {x : Nat} (hx : Alive s x) :
+    Alive (s.pushFrame pins) x := by
+  have := alive_push h (mkObj (.frame pins) 1) hx
+  exact this
+
+theorem objs_pushFrame {s : State} (h : Inv s) (pins : List Nat) {y : Nat} {o : Obj}
+    (hy : s.objs y = some o) : (s.pushFrame pins).objs y = some o := by
+  have := lt_next h hy
+  simp only [State.pushFrame, objs_push]; rw [if_neg (by omega)]; exact hy
+
+theorem inv_pushFrames {s : State} (h : Inv s) (fs : List (List Nat))
+    (hp : ∀ pins ∈ fs, ∀ p ∈ pins, Alive s p) : Inv (s.pushFrames fs) := by
+  induction fs generalizing s with
+  | nil => exact h
+  | cons pins rest ih =>
+    simp only [State.pushFrames]
+    refine ih (inv_pushFrame h pins (hp pins (by simp))) ?_
+    intro ps hps p hpp
+    exact alive_pushFrame h pins (hp ps (by simp [hps]) p hpp)
+
+theorem objs_pushFrames {s : State} (h : Inv s) (fs : List (List Nat))
+    (hp : ∀ pins ∈ fs, ∀ p ∈ pins, Alive s p) {y : Nat} {o : Obj} (hy : s.objs y = some o) :
+    (s.pushFrames fs).objs y = some o := by
+  induction fs generalizing s with
+  | nil => exact hy
+  | cons pins rest ih =>
+    simp only [State.pushFrames]
+    refine ih (inv_pushFrame h pins (hp pins (by simp))) ?_ (objs_pushFrame h pins hy)
+    intro ps hps p hpp
+    exact alive_pushFrame h pins (hp ps (by simp [hps]) p hpp)
+
+theorem alive_set {s : State} {i : Nat} {o o' : Obj} (hi : s.objs i = some o) (ha : o'.alive = o.alive)
+    {p : Nat} (hp : Alive s p) : Alive (s.set i o') p := by
+  obtain ⟨op, hop, hpa⟩ := hp
+  by_cases hpi : p = i
+  · subst hpi; rw [hi] at hop; simp at hop; subst hop
+    exact ⟨o', by simp, by rw [ha]; exact hpa⟩
+  · exact ⟨op, by simp [hpi, hop], hpa⟩
+
+theorem release_alive {s : State} (x : Nat) {p : Nat} (hp : Alive s p) : Alive (release s x).1 p := by
+  unfold release
+  split
+  · exact hp
+  · rename_i o ho
+    have hox := objs_of_live ho
+    split
+    · exact hp
+    · exact hp
+    · exact hp
+    · exact hp
+    · exact hp
+    · split
+      · rename_i os hos
+        split
+        · rename_i d orig hks
+          refine alive_set (objs_of_live hos) ?_ hp
+          simp [finalizeGcp, hks]
+        · exact hp
+      · exact hp
+    · rename_i d orig hk
+      refine alive_set hox ?_ hp
+      simp [finalizeGcp, hk]
+    · rename_i src rel hk
+      split
+      · exact hp
+      · exact alive_set (o' := { o with kind := .frombuf src true, released := true }) hox rfl hp
+
+/-- what a release that calls a destructor tells about the state before -/
+theorem release_fired {s : State} {x w : Nat} {l : List Nat} (h : (release s x).2 = .ok (w :: l)) :
+    Alive s x ∧ ∃ ow, s.live w = some ow := by
+  unfold release at h
+  split at h
+  · simp at h
+  · rename_i o ho
+    have hax := alive_of_live ho
+    split at h
+    · simp at h
+    · simp at h
+    · simp at h
+    · simp at h
+    · simp at h
+    · split at h
+      · rename_i os hos
+        split at h
+        · split at h
+          · simp at h; exact ⟨hax, os, by rw [← h.1]; exact hos⟩
+          · simp at h
+        · simp at h
+      · simp at h
+    · split at h
+      · simp at h; exact ⟨hax, o, by rw [← h.1]; exact ho⟩
+      · simp at h
+    · split at h <;> simp at h
+
+theorem callPins_alive {s : State} (h : Inv s) {w : Nat} {ow : Obj} (hw : s.live w = some ow)
+    {pins : List Nat} (hc : callPins s w = some pins) : ∀ p ∈ pins, Alive s p := by
+  have e := (live_def s w ow).mp hw
+  simp only [callPins, e.1] at hc
+  split at hc
+  · rename_i d orig hk
+    simp at hc; subst hc
+    intro p hp
+    exact h.nd w ow e.1 e.2 p (by simpa [edges, hk] using hp)
+  · simp at hc
+
+theorem inv_opRelease {s : State} (h : Inv s) (x : Nat) : Inv (opRelease s x).1 := by
+  unfold opRelease
+  have hr := inv_release h x
+  split
+  · rename_i w l hok
+    split
+    · rename_i pins hc
+      obtain ⟨hax, ow, how⟩ := release_fired hok
+      refine inv_pushFrame hr _ ?_
+      intro p hp
+      simp only [List.mem_append] at hp
+      rcases hp with hp | hp
+      · split at hp
+        · simp at hp; rw [hp]; exact release_alive x hax
+        · simp at hp
+          rcases hp with hp | hp
+          · rw [hp]; exact release_alive x hax
+          · rw [hp]; exact release_alive x (alive_of_live how)
+      · exact release_alive x (callPins_alive h how hc p hp)
+    · exact hr
+  · exact hr
+
+theorem step1_ret {s : State} {o : Obj} {pins : List Nat} (g : GcpInv o) (hk : o.kind = .frame pins) :
+    Step1 s o { o with kind := .frame [], ext := 0 } := by
+  refine ⟨rfl, ?_, ?_, ?_, ?_, ?_, ?_, ?_⟩
+  · intro x hx; simp [edges] at hx
+  · simp only [GcpInv, hk] at g ⊢; exact g
+  · intro x a h; simp at h
+  · intro sid h; simp at h
+  · intro h; rcases h with h | ⟨_, _, h⟩ <;> simp [hk] at h
+  · intro fl h; simp [hk] at h
+  · intro b r h; simp at h
+
+theorem inv_opRet {s : State} (h : Inv s) : Inv (opRet s).1 := by
+  unfold opRet
+  split
+  · split
+    · rename_i o ho
+      split
+      · rename_i pins hk
+        exact inv_frames (inv_set h (objs_of_live ho) (step1_ret (h.ghost _ _ (objs_of_live ho)) hk)) _
+      · exact h
+    · exact h
+  · exact h
 
 theorem gcpInv_dead_finalize {o : Obj} (g : GcpInv o) : GcpInv { finalizeObj o with alive := false } := by
   obtain ⟨k, al, e, c, hd, ia, r, n⟩ := o
@@ -529,6 +698,47 @@ theorem inv_collect {s : State} (h : Inv s) (S : List Nat) (hok : collectOk s S 
       rw [hob] at ho2; simp at ho2; subst ho2
       exact ⟨ob', fl, rfl, hpb fl hbk⟩
 
+theorem inv_opCollect {s : State} (h : Inv s) (S : List Nat) : Inv (opCollect s S).1 := by
+  unfold opCollect
+  split
+  · rename_i hok
+    refine inv_pushFrames (inv_collect h S hok) _ ?_
+    intro pins hpins p hp
+    simp only [List.mem_map] at hpins
+    obtain ⟨w, _, rfl⟩ := hpins
+    simp only [List.mem_filter, isAlive] at hp
+    cases hl : (collectState s S).live p with
+    | none => simp [hl] at hp
+    | some op => exact alive_of_live hl
+  · exact h
+
+theorem inv_opFinalize {s : State} (h : Inv s) (x : Nat) (S : List Nat) : Inv (opFinalize s x S).1 := by
+  unfold opFinalize
+  split
+  · split
+    · rename_i o ho
+      have hox := objs_of_live ho
+      split
+      · rename_i d orig hk
+        have h1 := inv_set h hox (step1_finalize (h.ghost _ _ hox) hk)
+        have keep : ∀ p, Alive s p → Alive (s.set x { finalizeGcp o with released := true }) p := by
+          intro p hp
+          exact alive_set hox (by simp [finalizeGcp, hk]) hp
+        split
+        · rename_i dd
+          refine inv_pushFrame h1 _ ?_
+          intro p hp
+          simp only [List.mem_cons] at hp
+          have e := (live_def s x o).mp ho
+          rcases hp with rfl | rfl | hp
+          · exact keep _ (alive_of_live ho)
+          · exact keep _ (h.nd x o e.1 e.2 _ (by simp [edges, hk]))
+          · exact keep _ (h.nd x o e.1 e.2 _ (by simp [edges, hk]; right; simpa using hp))
+        · exact h1
+      · exact h
+    · exact h
+  · exact h
+
 theorem inv_step {s : State} (h : Inv s) (op : Op) : Inv (step s op).1 := by
   cases op with
   | newPy tag => exact inv_push h (fresh_leaf _ _ (Or.inl ⟨tag, rfl⟩))
@@ -576,8 +786,8 @@ theorem inv_step {s : State} (h : Inv s) (op : Op) : Inv (step s op).1 := by
         exact inv_set h (objs_of_live ho) (step1_gcNone (h.ghost _ _ (objs_of_live ho)) hk)
       · exact h
     · exact h
-  | release x => exact inv_release h x
-  | withExit x => exact inv_release h x
+  | release x => exact inv_opRelease h x
+  | withExit x => exact inv_opRelease h x
   | dropRef x =>
     simp only [step, opDropRef]
     split
@@ -654,11 +864,9 @@ theorem inv_step {s : State} (h : Inv s) (op : Op) : Inv (step s op).1 := by
       · split <;> exact h
       · exact h
     · exact h
-  | collect S =>
-    simp only [step, opCollect]
-    split
-    · rename_i hok; exact inv_collect h S hok
-    · exact h
+  | collect S => exact inv_opCollect h S
+  | finalize x S => exact inv_opFinalize h x S
+  | ret => exact inv_opRet h
 
 theorem inv_run {s : State} (h : Inv s) (ops : List Op) : Inv (run s ops) := by
   induction ops generalizing s with
@@ -752,6 +960,7 @@ theorem release_evolve {s : State} (x y : Nat) (o : Obj) (hy : s.objs y = some o
     · exact ⟨o, hy, Evolve.refl o⟩
     · exact ⟨o, hy, Evolve.refl o⟩
     · exact ⟨o, hy, Evolve.refl o⟩
+    · exact ⟨o, hy, Evolve.refl o⟩
     · split
       · rename_i os hos
         split
@@ -765,6 +974,16 @@ theorem release_evolve {s : State} (x y : Nat) (o : Obj) (hy : s.objs y = some o
       split
       · exact ⟨o, hy, Evolve.refl o⟩
       · exact evolve_set hy hox' (evolve_other (by simp [hk]) (by simp [hk]) rfl ⟨rfl, rfl⟩)
+
+theorem opRelease_evolve {s : State} (h : Inv s) (x y : Nat) (o : Obj) (hy : s.objs y = some o) :
+    ∃ o', (opRelease s x).1.objs y = some o' ∧ Evolve o o' := by
+  obtain ⟨o', ho', ev⟩ := release_evolve (s := s) x y o hy
+  unfold opRelease
+  split
+  · split
+    · exact ⟨o', objs_pushFrame (inv_release h x) _ ho', ev⟩
+    · exact ⟨o', ho', ev⟩
+  · exact ⟨o', ho', ev⟩
 
 theorem step_evolve {s : State} (h : Inv s) (op : Op) (y : Nat) (o : Obj) (hy : s.objs y = some o) :
     ∃ o', (step s op).1.objs y = some o' ∧ Evolve o o' := by
@@ -807,8 +1026,8 @@ theorem step_evolve {s : State} (h : Inv s) (op : Op) (y : Nat) (o : Obj) (hy : 
         exact evolve_set hy (objs_of_live hg) (evolve_gcNone hk)
       · exact same
     · exact same
-  | release x => exact release_evolve x y o hy
-  | withExit x => exact release_evolve x y o hy
+  | release x => exact opRelease_evolve h x y o hy
+  | withExit x => exact opRelease_evolve h x y o hy
   | dropRef x =>
     simp only [step, opDropRef]
     split
@@ -875,11 +1094,49 @@ theorem step_evolve {s : State} (h : Inv s) (op : Op) (y : Nat) (o : Obj) (hy : 
       · exact same
     · exact same
   | collect S =>
-    simp only [step, opCollect]
+    have hI := inv_opCollect h S
+    simp only [step, opCollect] at hI ⊢
     split
-    · by_cases hm : y ∈ S
-      · exact ⟨{ finalizeObj o with alive := false }, by simp [collectState, hy, hm], evolve_finalizeObj o⟩
-      · exact ⟨o, by simp [collectState, hy, hm], Evolve.refl o⟩
+    · rename_i hok
+      have hpins : ∀ pins ∈ (firedIn s S).map (fun w => ((callPins s w).getD []).filter (isAlive (collectState s S))),
+          ∀ p ∈ pins, Alive (collectState s S) p := by
+        intro pins hpins p hp
+        simp only [List.mem_map] at hpins
+        obtain ⟨w, _, rfl⟩ := hpins
+        simp only [List.mem_filter, isAlive] at hp
+        cases hl : (collectState s S).live p with
+        | none => simp [hl] at hp
+        | some op => exact alive_of_live hl
+      by_cases hm : y ∈ S
+      · exact ⟨{ finalizeObj o with alive := false },
+          objs_pushFrames (inv_collect h S hok) _ hpins (by simp [collectState, hy, hm]), evolve_finalizeObj o⟩
+      · exact ⟨o, objs_pushFrames (inv_collect h S hok) _ hpins (by simp [collectState, hy, hm]), Evolve.refl o⟩
+    · exact same
+  | finalize x S =>
+    simp only [step, opFinalize]
+    split
+    · split
+      · rename_i ox hox
+        split
+        · rename_i d orig hk
+          have h1 := inv_set h (objs_of_live hox) (step1_finalize (h.ghost _ _ (objs_of_live hox)) hk)
+          obtain ⟨o', ho', ev⟩ := evolve_set hy (objs_of_live hox) (evolve_finalize hk true)
+          split
+          · exact ⟨o', objs_pushFrame h1 _ ho', ev⟩
+          · exact ⟨o', ho', ev⟩
+        · exact same
+      · exact same
+    · exact same
+  | ret =>
+    simp only [step, opRet]
+    split
+    · split
+      · rename_i of hof
+        split
+        · rename_i pins hk
+          exact evolve_set hy (objs_of_live hof) (evolve_other (by simp [hk]) (by simp [hk]) rfl ⟨rfl, rfl⟩)
+        · exact same
+      · exact same
     · exact same
 
 theorem run_evolve {s : State} (h : Inv s) (ops : List Op) (y : Nat) (o : Obj) (hy : s.objs y = some o) :
@@ -904,7 +1161,7 @@ theorem gcpInv_le_one {o : Obj} (g : GcpInv o) : o.calls ≤ 1 := by
 
 theorem set_self {s : State} {i : Nat} {o : Obj} (h : s.objs i = some o) : s.set i o = s := by
   cases s with
-  | mk objs next =>
+  | mk objs next frames =>
     simp only [State.set, State.mk.injEq, and_true]
     funext j
     by_cases hj : j = i
@@ -935,5 +1192,182 @@ theorem fromHandle_live {s : State} (hinv : Inv s) (h x a : Nat) (oh : Obj)
     obtain ⟨ox, hox, hoxa⟩ := hinv.nd h' oh e.1 e.2 x (by simp [edges, hk])
     have : s.live x = some ox := (live_def _ _ _).mpr ⟨hox, hoxa⟩
     simp [this]
+
+/-! ### release and activations -/
+
+theorem release_next (s : State) (x : Nat) : (release s x).1.next = s.next := by
+  unfold release
+  split
+  · rfl
+  · split <;> try rfl
+    · split
+      · split <;> rfl
+      · rfl
+    · split <;> rfl
+
+theorem live_pushFrame_old (s : State) (pins : List Nat) (j : Nat) (hj : j ≠ s.next) :
+    (s.pushFrame pins).live j = s.live j := by
+  simp [State.live, State.pushFrame, hj]
+
+theorem set_pushFrame (s : State) (pins : List Nat) (i : Nat) (o : Obj) (hi : i ≠ s.next) :
+    (s.pushFrame pins).set i o = (s.set i o).pushFrame pins := by
+  simp only [State.set, State.pushFrame, State.push, State.mk.injEq, and_true, true_and]
+  funext j
+  by_cases h1 : j = i
+  · subst h1; simp [hi]
+  · simp [h1]
+
+/-- `cdata_exit` does not see an activation that was started before it (for operands that exist) -/
+theorem release_pushFrame {s : State} (h : Inv s) (x : Nat) (pins : List Nat) (hx : x < s.next) :
+    release (s.pushFrame pins) x = ((release s x).1.pushFrame pins, (release s x).2) := by
+  have hxne : x ≠ s.next := by omega
+  unfold release
+  rw [live_pushFrame_old s pins x hxne]
+  split
+  · rfl
+  · rename_i o ho
+    split
+    · rfl
+    · rfl
+    · rfl
+    · rfl
+    · rfl
+    · rename_i sid hk
+      obtain ⟨os0, hos0, _⟩ := h.sk x o sid (objs_of_live ho) hk
+      have hsid : sid ≠ s.next := Nat.ne_of_lt (lt_next h hos0)
+      rw [live_pushFrame_old s pins sid hsid]
+      split
+      · split
+        · rw [set_pushFrame s pins sid _ hsid]
+        · rfl
+      · rfl
+    · rw [set_pushFrame s pins x _ hxne]
+    · split
+      · rfl
+      · rw [set_pushFrame s pins x _ hxne]
+
+/-- `cdata_exit` applied twice: the second application changes nothing and calls nothing. -/
+theorem release_idem_core (s : State) (x : Nat) (l : List Nat)
+    (hok : (release s x).2 = .ok l) :
+    release (release s x).1 x = ((release s x).1, .ok []) := by
+  unfold release at hok
+  split at hok
+  · simp at hok
+  · rename_i o ho
+    have hoa := ((live_def s x o).mp ho)
+    split at hok
+    · simp at hok
+    · simp at hok
+    · -- owning, not a struct: no effect
+      rename_i hk
+      have e : release s x = (s, .ok []) := by unfold release; simp [ho, hk]
+      rw [e]; exact e
+    · simp at hok
+    · simp at hok
+    · rename_i sid hk
+      split at hok
+      · rename_i os hos
+        have hosa := ((live_def s sid os).mp hos)
+        split at hok
+        · rename_i d orig hks
+          have hne : x ≠ sid := by
+            intro e; subst e; rw [ho] at hos; simp at hos; subst hos; rw [hk] at hks; simp at hks
+          have e : release s x = (s.set sid { finalizeGcp os with released := true },
+              .ok (if fires os then [sid] else [])) := by
+            unfold release; simp [ho, hk, hos, hks]
+          rw [e]
+          have hf : finalizeGcp os = { os with kind := .gcp none none, calls := os.calls + (if d.isSome then 1 else 0) } := by simp [finalizeGcp, hks]
+          have l1 := live_set_other s sid x { finalizeGcp os with released := true } hne
+          have l2 := live_set_self s sid { finalizeGcp os with released := true }
+            (by rw [hf]; exact hosa.2)
+          unfold release
+          simp only [l1, ho, hk, l2]
+          rw [hf]
+          simp only [finalizeGcp, fires, Option.isSome_none, Bool.false_eq_true, if_false, Nat.add_zero]
+          congr 1
+          exact set_self (by simp)
+        · rename_i hnk
+          have e : release s x = (s, .ok []) := by
+            unfold release; simp only [ho, hk, hos]
+            try (split <;> first | rfl | (rename_i d orig hks; exact absurd hks (hnk d orig)))
+          rw [e]; exact e
+      · rename_i hnone
+        have e : release s x = (s, .ok []) := by unfold release; simp [ho, hk, hnone]
+        rw [e]; exact e
+    · rename_i d orig hk
+      have e : release s x = (s.set x { finalizeGcp o with released := true },
+          .ok (if fires o then [x] else [])) := by
+        unfold release; simp [ho, hk]
+      rw [e]
+      have hf : finalizeGcp o = { o with kind := .gcp none none, calls := o.calls + (if d.isSome then 1 else 0) } := by simp [finalizeGcp, hk]
+      have l2 := live_set_self s x { finalizeGcp o with released := true } (by rw [hf]; exact hoa.2)
+      unfold release
+      simp only [l2]
+      rw [hf]
+      simp only [finalizeGcp, fires, Option.isSome_none, Bool.false_eq_true, if_false, Nat.add_zero]
+      congr 1
+      exact set_self (by simp)
+    · rename_i src rel hk
+      by_cases hr : rel = true
+      · have e : release s x = (s, .ok []) := by unfold release; simp [ho, hk, hr]
+        rw [e]; exact e
+      · have e : release s x = (s.set x { o with kind := .frombuf src true, released := true }, .ok []) := by
+          unfold release; simp [ho, hk, hr]
+        rw [e]
+        have l2 := live_set_self s x { o with kind := .frombuf src true, released := true } hoa.2
+        unfold release
+        simp [l2]
+
+
+theorem release_drops_export_core (s : State) (f b : Nat) (l : List Nat)
+    (hok : (release s f).2 = .ok l) : exportsOn (release s f).1 b f = false := by
+  cases hl : s.live f with
+  | none => simp [release, hl] at hok
+  | some o =>
+    have hoa := (live_def s f o).mp hl
+    cases hk : o.kind with
+    | py t fl => simp [release, hl, hk] at hok
+    | handle x a => simp [release, hl, hk] at hok
+    | frame pins => simp [release, hl, hk] at hok
+    | owning st =>
+      cases st
+      · simp [release, hl, hk, exportsOn]
+      · simp [release, hl, hk] at hok
+    | structptr sid =>
+      have hnf : ∀ s' : State, s'.live f = some o → exportsOn s' b f = false := by
+        intro s' h'; simp [exportsOn, h', hk]
+      unfold release
+      simp only [hl, hk]
+      split
+      · rename_i os hos
+        split
+        · rename_i d orig hks
+          have hne : f ≠ sid := by
+            intro e; subst e; rw [hl] at hos; simp at hos; subst hos; rw [hk] at hks; simp at hks
+          exact hnf _ (by rw [live_set_other _ _ _ _ hne]; exact hl)
+        · exact hnf _ hl
+      · exact hnf _ hl
+    | gcp d orig =>
+      have hf : finalizeGcp o = { o with kind := .gcp none none, calls := o.calls + (if d.isSome then 1 else 0) } := by
+        simp [finalizeGcp, hk]
+      have e : release s f = (s.set f { finalizeGcp o with released := true },
+          .ok (if fires o then [f] else [])) := by
+        unfold release; simp [hl, hk]
+      rw [e]
+      have l2 := live_set_self s f { finalizeGcp o with released := true } (by rw [hf]; exact hoa.2)
+      simp only [exportsOn]
+      rw [l2]
+      simp [hf]
+    | frombuf src rel =>
+      cases rel
+      · have e : release s f = (s.set f { o with kind := .frombuf src true, released := true }, .ok []) := by
+          unfold release; simp [hl, hk]
+        rw [e]
+        have l2 := live_set_self s f { o with kind := .frombuf src true, released := true } hoa.2
+        simp only [exportsOn]
+        rw [l2]
+        simp
+      · simp [release, hl, hk, exportsOn]
+
 
 end CffiVerif.Ownership
